@@ -57,12 +57,16 @@ func C12(r *core.Run) int {
 		// aliases inside reference cycles: what the loader leaves unresolved depends on
 		// its map iteration order; goag's verdict and bytes must not
 		d := specgen.NewDoc("aliascycle")
-		for i := 0; i < 6; i++ {
+		for i := 2; i < 3; i++ { // one alias / target pair: whether the loader sees the alias first is a coin toss per load
 			n := fmt.Sprintf("N%c", 'A'+i)
+			// the alias is the public name; the node refers to its children through it
 			d.Comp("schemas", n+"Alias", specgen.Ref("schemas", n+"Tree"))
-			d.Comp("schemas", n+"Tree", specgen.Obj(nil, specgen.M{"label": specgen.Prim("string", ""), "kids": specgen.Arr(specgen.Ref("schemas", n+"Alias")), "next": specgen.Ref("schemas", n+"Alias")}))
+			d.Comp("schemas", n+"Tree", specgen.Obj([]string{"label"}, specgen.M{"label": specgen.Prim("string", ""), "kids": specgen.Arr(specgen.Ref("schemas", n+"Alias")), "tag": specgen.Ref("schemas", "Label")}))
 		}
-		d.Op("/t", "post", specgen.M{"requestBody": specgen.M{"content": specgen.JSONContent(specgen.Ref("schemas", "NATree"))}, "responses": specgen.M{"200": specgen.Resp("ok", specgen.Ref("schemas", "NCAlias"))}})
+		d.Comp("schemas", "Label", specgen.Obj(nil, specgen.M{"text": specgen.Prim("string", "")}))
+		d.Comp("schemas", "Colour", specgen.Prim("string", ""))
+		d.Comp("schemas", "Problem", specgen.Obj([]string{"message"}, specgen.M{"message": specgen.Prim("string", "")}))
+		d.Op("/t", "get", specgen.M{"responses": specgen.M{"200": specgen.Resp("ok", specgen.Ref("schemas", "NCAlias")), "default": specgen.Resp("e", specgen.Ref("schemas", "Label"))}})
 		fat = append(fat, specgen.Case{ID: "alias-cycles-fat", Family: "mapfat", Spec: d.Root, Flags: specgen.Flags{Client: true, DoNotEdit: true}, Label: map[string]string{"set": "alias-cycles-fat"}})
 	}
 	var corpus []specgen.Case
@@ -124,6 +128,16 @@ func C12(r *core.Run) int {
 	evals := 0
 	for i, p := range placedA {
 		ra, rb := resA[p.Case.ID], resB[p.Case.ID]
+		mixed := false
+		for _, ok := range ra.RepeatOK {
+			if ok != ra.RepeatOK[0] {
+				mixed = true
+			}
+		}
+		if mixed {
+			r.Report(core.Violation{Case: p.Case.ID, Class: "nondeterministic-verdict", Message: fmt.Sprintf("repeated runs of one invocation in one process did not all end alike (succeeded: %v)", ra.RepeatOK), Spec: string(p.Case.SpecBytes()), Flags: p.Case.Flags})
+			continue
+		}
 		if ra.OK != rb.OK {
 			r.Report(core.Violation{Case: p.Case.ID, Class: "nondeterministic-verdict", Message: fmt.Sprintf("same invocation succeeded in one process (%v) and failed in another (%v): %s | %s", ra.OK, rb.OK, ra.Err, rb.Err), Spec: string(p.Case.SpecBytes()), Flags: p.Case.Flags})
 			continue
